@@ -391,3 +391,66 @@ Proof.
 Qed.
 
 End Pages.
+
+(* ---------- where the events of a page come from ---------- *)
+Lemma take_in flt : forall l pos room t s, take flt l pos room = (t, s) -> forall e, In e t -> In e l.
+Proof.
+  induction l as [| x l IH]; intros pos room t s H e He; simpl in H.
+  - inversion H. subst. contradiction.
+  - destruct (fev_matches flt x).
+    + destruct (room =? 0).
+      * inversion H. subst. contradiction.
+      * destruct (take flt l (N.succ pos) (room - 1)) as [t' s'] eqn:E. inversion H. subst.
+        destruct He as [-> | He]; [left; auto | right; eapply IH; eauto].
+    + right. eapply IH; eauto.
+Qed.
+
+Lemma in_skipn {A} (k : nat) (l : list A) e : In e (skipn k l) -> In e l.
+Proof. intros H. rewrite <- (firstn_skipn k l). apply in_or_app. auto. Qed.
+
+Lemma scanq_in ci bev flt limit : forall bs sc sk rm last evs tok stop,
+  scanq ci bev flt limit bs sc sk rm last = (Some (evs, tok), stop) ->
+  forall e, In e evs -> exists n, In n bs /\ In e (bev n).
+Proof.
+  induction bs as [| n rest IH]; intros sc sk rm last evs tok stop H e He; simpl in H.
+  - inversion H. subst. contradiction.
+  - destruct (ci n) as [[|] |]; [| | discriminate].
+    + destruct (_ && _).
+      * inversion H. subst. contradiction.
+      * destruct (take flt (skipN sk (bev n)) sk rm) as [t [p |]] eqn:Et.
+        -- assert (Ht : evs = t) by congruence. subst evs. exists n. split; [left; auto |].
+           eapply in_skipn. eapply take_in; eauto.
+        -- destruct (scanq ci bev flt limit rest (N.succ sc) 0 (rm - lenN t) last) as [[[t' tok'] |] stop'] eqn:Er;
+             inversion H. subst.
+           apply in_app_or in He. destruct He as [He | He].
+           ++ exists n. split; [left; auto |]. eapply in_skipn. eapply take_in; eauto.
+           ++ destruct (IH _ _ _ _ _ _ _ Er e He) as [m [Hm Hin]]. exists m. split; [right |]; auto.
+    + destruct (IH _ _ _ _ _ _ _ H e He) as [m [Hm Hin]]. exists m. split; [right |]; auto.
+Qed.
+
+Lemma flat_block_number n b e : In e (flat_block n b) -> fe_block e = n.
+Proof.
+  unfold flat_block. intros H. apply in_concat in H. destruct H as [l [Hl Hx]].
+  apply in_mapi_from in Hl. destruct Hl as [ti [t [Ht Hl]]]. subst l.
+  apply in_mapi_from in Hx. destruct Hx as [ei [x [Hx' He]]]. subst e. reflexivity.
+Qed.
+
+(* a page of a canonical query only holds events of blocks start..min(to, head) *)
+Lemma do_query_page_range W (Wpos : 0 < W) member s flt from to chunk limit tok s' evs t :
+  do_query W member s flt from to chunk limit tok = (s', OPage evs t) ->
+  forall e, In e evs ->
+    (if tok_none tok then from else fst tok) <= fe_block e <= N.min to (lenN (chain s) - 1).
+Proof.
+  unfold do_query. intros H e He.
+  destruct (chain s) as [| b0 ch] eqn:Ech; [discriminate |]. rewrite <- Ech in *.
+  set (start := if tok_none tok then from else fst tok) in *.
+  set (to' := N.min to (lenN (chain s) - 1)) in *.
+  destruct (to' <? start) eqn:Elt.
+  - inversion H. subst. contradiction.
+  - apply N.ltb_ge in Elt.
+    destruct (running (ensure W s)) eqn:Er; try discriminate.
+    rewrite (walk_blocks_eq W Wpos start to') in H by lia.
+    destruct (scanq _ _ _ _ _ _ _ _ _) as [[[evs' t'] |] stop] eqn:Es; inversion H. subst.
+    destruct (scanq_in _ _ _ _ _ _ _ _ _ _ _ _ Es e He) as [n [Hn Hin]].
+    apply rangeN_in in Hn. apply flat_block_number in Hin. lia.
+Qed.
